@@ -196,6 +196,39 @@ def prove(name, c, label=None):
 lemma = prove
 
 
+_LEMMA_MODE = ["use"]
+
+
+def require(name, c):
+    if _LEMMA_MODE[0] == "verify":
+        assume(c)
+    else:
+        prove("lemma:" + name, c)
+
+
+def ensure(name, c):
+    if _LEMMA_MODE[0] == "verify":
+        prove(name, c)
+    else:
+        assume(c)
+
+
+def verify_lemma(fn, *a, **k):
+    _LEMMA_MODE[0] = "verify"
+    try:
+        return fn(*a, **k)
+    finally:
+        _LEMMA_MODE[0] = "use"
+
+
+def use_lemma(fn, *a, **k):
+    return fn(*a, **k)
+
+
+def abstract(name, term):
+    return term
+
+
 def rewrite(name, term, closed):
     prove(name, eq(term, closed))
 
